@@ -25,6 +25,7 @@ var Layouts = []Layout{
 	{Name: "oneline", Sep: " ", Soft: "space", NL: "\n"},
 	{Name: "airy", Sep: " \t ", Soft: "blank", NL: "\n", Indent: true},
 	{Name: "tight", Sep: " ", Tight: true, Soft: "none", NL: "\n"},
+	{Name: "gappy", Sep: "  ", Soft: "gaps", NL: "\n", Indent: false}, // three empty lines wherever an empty line may go
 }
 
 func isPunct(t string) bool {
@@ -56,9 +57,12 @@ func Render(tokens []string, l Layout) string {
 				if pendingBreak < 1 {
 					pendingBreak = 1
 				}
-			case "blank":
+			case "blank", "gaps":
 				if t == "~" || t == "%" {
 					pendingBreak = 2
+					if l.Soft == "gaps" {
+						pendingBreak = 4
+					}
 				} else if pendingBreak < 1 {
 					pendingBreak = 1
 				}
